@@ -202,7 +202,7 @@ func c14Check(c *Ctx, doc string, cfg Cfg, seq bool) (nontrivial bool) {
 
 func c14Run(c *Ctx) {
 	mustBeDefault(c)
-	c.S.Rule = "cases = (document template, leaf spelling, cast options, skip function, decoder): templates put the spelling in element, attribute, text-key (beside an attribute), text-before-child, text-after-child, list-member, root and sibling positions; spellings = integers incl. 64-bit boundaries, decimal/exponent/hex floats, overflowing numerals, every case variant and signed spelling of nan/inf plus infinity spellings, booleans accepted and rejected by ParseBool, ordinary text; all 16 combinations of cast-to-int/float/bool/NaN-Inf x skip function {none, element key, attribute key, text key} x {simple-as-map off,on} x {Map, MapSeq decoder}. Oracle: same structure and keys as the uncast decode, uncast leaves are strings, each cast leaf equals the documented cast of its text, Json() of the cast Map succeeds unless CastNanInf is on, x2j-wrapper.DocToJson agrees. non-trivial = casting changed at least one leaf."
+	c.S.Rule = "cases = (document template, leaf spelling, cast options, skip function, decoder): templates put the spelling in element, attribute, text-key (beside an attribute), text-before-child, text-after-child, list-member, root and sibling positions; spellings = integers incl. 64-bit boundaries, decimal/exponent/hex floats, overflowing numerals, every case variant and signed spelling of nan/inf plus infinity spellings, booleans accepted and rejected by ParseBool, ordinary text; all 16 combinations of cast-to-int/float/bool/NaN-Inf x skip function {none, element key, attribute key, text key} x {simple-as-map off,on} x {Map, MapSeq decoder}; plus histories: for 4 templates x every spelling, all 16 cast combinations in descending then ascending order within one process, each with its setters called in every order (up to 24). Oracle: same structure and keys as the uncast decode, uncast leaves are strings, each cast leaf equals the documented cast of its text, Json() of the cast Map succeeds unless CastNanInf is on, x2j-wrapper.DocToJson agrees. non-trivial = casting changed at least one leaf."
 	c.S.Assumptions = []string{"skip function for text preceding child elements in an element without attributes may be shown the element key or the text key", "the sequence decoder never consults the skip function (documented)"}
 	tmpl := []string{
 		`<r><k>S</k></r>`, `<r><e k="S"/></r>`, `<r><k x="1">S</k></r>`, `<r><k>S<c/></k></r>`, `<r><k><c/>S</k></r>`,
@@ -243,6 +243,41 @@ func c14Run(c *Ctx) {
 			}
 		}
 	}
+	// histories: one worker owns a (template, spelling) pair and decodes it under every cast combination in
+	// descending and then ascending order (a combination meets what earlier ones left behind), each
+	// combination with its setters called in every order
 	rt.OrderPolicy = rt.PolicySorted
+	var order []int
+	for b := 15; b >= 0; b-- {
+		order = append(order, b)
+	}
+	for b := 0; b < 16; b++ {
+		order = append(order, b)
+	}
+	for _, t := range tmpl[:4] {
+		for _, s := range sp {
+			if !c.Mine() {
+				continue
+			}
+			doc := strings.ReplaceAll(t, "S", xmlEsc(s, true))
+			c.S.States++
+			c.S.Evaluations++
+			for _, bits := range order {
+				n := 0
+				for b := 0; b < 4; b++ {
+					if bits&(1<<b) != 0 {
+						n++
+					}
+				}
+				for perm := 0; perm < factorial(n); perm++ {
+					cfg := Cfg{AttrPrefix: "-", KeyPrefix: "#", CastInt: bits&1 != 0, NoFloat: bits&2 != 0, NoBool: bits&4 != 0, NanInf: bits&8 != 0, CastPerm: perm}
+					for _, seq := range []bool{false, true} {
+						c.S.Schedules++
+						c14Check(c, doc, cfg, seq)
+					}
+				}
+			}
+		}
+	}
 	resetOptions()
 }
